@@ -94,16 +94,31 @@ var frameRe = regexp.MustCompile(`^\s{2}(\S+)\(`)
 // entryFunc gives the entry-level neutrino function of one stack: the last
 // frame inside github.com/lightninglabs/neutrino before the harness frames.
 func entryFunc(frames []string) string {
-	last := ""
-	for _, f := range frames {
+	first, last, lastIdx := "", "", -1
+	for i, f := range frames {
 		if strings.Contains(f, "github.com/lightninglabs/neutrino") {
-			last = f
+			if first == "" {
+				first = f
+			}
+			last, lastIdx = f, i
 		}
 	}
 	if last == "" {
 		return ""
 	}
+	// The access was made on a goroutine the client started itself (a worker, a handler: no harness frame
+	// below the neutrino frames): the entry frame is only the goroutine's root, so name the function that
+	// made the access instead.
+	harnessBelow := false
+	for _, f := range frames[lastIdx+1:] {
+		if strings.Contains(f, "verifharness/") {
+			harnessBelow = true
+		}
+	}
 	f := last
+	if !harnessBelow {
+		f = first
+	}
 	if i := strings.LastIndex(f, "/"); i >= 0 {
 		f = f[i+1:]
 	}
